@@ -674,3 +674,118 @@ def delete_release_cases(seeds, prefix="del"):
                     "PUB %s 1 64 0" % T, "SR 3", "JOIN 101", "SR %d" % a, "ADV %d" % (301000 * MS), "JOIN 100", "SR %d" % b]
             cases.append(("%s-s%d-v%d" % (prefix, seed, variant), ops))
     return cases
+
+
+# ---------------------------------------------------------------- abandoned requests (C16)
+
+def abandon_cases(ks=(1, 2, 3, 4, 6), ys=(0, 1, 4), fills=(0, 16, 24), prefix="ab"):
+    """A library-level request polled k times (y yields in between) and dropped, with the target actor's mailbox
+    empty or saturated; then probes.  Returns (id, ops, index of the XC line, equivalent complete op)."""
+    T, Sn, S2 = tname("p", "t"), sname("p", "s"), sname("p", "new")
+    out = []
+    n = 0
+    for kind in ("CS", "DS", "PUB", "PULL", "ACK", "DT"):
+        for k in ks:
+            for y in ys:
+                for fill in fills:
+                    ops = ["SEED %d" % (n % 40), "CT " + hx(T), "CS %s %s 10 ~" % (hx(Sn), hx(T)),
+                           "PUB %s 2 61 0 62 0" % hx(T), "PULL %s 1 1" % hx(Sn)]
+                    if kind == "CS":
+                        xc = "XC CS %d %d %d %s %s 10" % (k, y, fill, hx(S2), hx(T))
+                        eq = "CS %s %s 10 ~" % (hx(S2), hx(T))
+                    elif kind == "DS":
+                        xc = "XC DS %d %d %d %s" % (k, y, fill, hx(Sn))
+                        eq = "DS " + hx(Sn)
+                    elif kind == "PUB":
+                        xc = "XC PUB %d %d %d %s 7a" % (k, y, fill, hx(T))
+                        eq = "PUB %s 1 7a 0" % hx(T)
+                    elif kind == "PULL":
+                        xc = "XC PULL %d %d %d %s 5" % (k, y, fill, hx(Sn))
+                        eq = "PULL %s 5 1" % hx(Sn)
+                    elif kind == "ACK":
+                        xc = "XC ACK %d %d %d %s %s" % (k, y, fill, hx(Sn), hx("1"))
+                        eq = "ACK %s 1 %s" % (hx(Sn), hx("1"))
+                    else:
+                        xc = "XC DT %d %d %d %s" % (k, y, fill, hx(T))
+                        eq = "DT " + hx(T)
+                    idx = len(ops)
+                    ops.append(xc)
+                    ops += ["Q", "GS " + hx(S2), "GS " + hx(Sn), "GT " + hx(T), "LTS %s 0 -" % hx(T), "LS %s 0 -" % hx("projects/p"),
+                            "STATS " + hx(Sn), "STATS " + hx(S2), "PUB %s 1 70 0" % hx(T), "STATS " + hx(Sn), "STATS " + hx(S2),
+                            "PULL %s 10 1" % hx(S2), "ADV %d" % (10200 * MS), "STATS " + hx(Sn), "PULL %s 10 1" % hx(Sn),
+                            "CT " + hx(T), "CS %s %s 10 ~" % (hx(S2), hx(T)), "DS " + hx(S2), "DS " + hx(Sn), "DT " + hx(T),
+                            "LT %s 0 -" % hx("projects/p"), "LS %s 0 -" % hx("projects/p")]
+                    out.append(("%s-%s-k%d-y%d-f%d" % (prefix, kind, k, y, fill), ops, idx, eq))
+                    n += 1
+    return out
+
+
+# ---------------------------------------------------------------- concurrent publishers (C08)
+
+def concurrent_publish_cases(seeds, prefix="cp"):
+    """Several Publish calls to one topic started without letting the runtime settle, two subscriptions, consumers of
+    different batch sizes afterwards (and one stream opened before)."""
+    cases = []
+    for seed in seeds:
+        rng = random.Random(seed)
+        T, S1, S2 = hx(tname("p", "t")), hx(sname("p", "a")), hx(sname("p", "b"))
+        ops = ["SEED %d" % seed, "CT " + T, "CS %s %s 10 ~" % (S1, T), "CS %s %s 10 ~" % (S2, T),
+               "SO 901 %s %d 0 10" % (S2, rng.choice([1, 2, 10])), "SR 901"]
+        npub = rng.randrange(2, 7)
+        for i in range(npub):
+            k = rng.randrange(1, 4)
+            msgs = " ".join("%s 0" % hx("p%d-%d" % (i, j)) for j in range(k))
+            ops.append("BG %d PUB %s %d %s" % (910 + i, T, k, msgs))
+            if rng.random() < 0.3:
+                ops.append("YIELD %d" % rng.randrange(1, 6))
+        ops += ["Q"] + ["JOIN %d" % (910 + i) for i in range(npub)]
+        ops += ["SR 901", "PULL %s %d 1" % (S1, rng.choice([1, 2, 3])), "MOD %s 0 1 @0" % S1, "PULL %s 1000 1" % S1,
+                "PULL %s 1000 1" % S1, "SR 901", "STATS " + S1, "STATS " + S2]
+        cases.append(("%s%d" % (prefix, seed), ops))
+    return cases
+
+
+def burst_cases(seeds, prefix="bu"):
+    """More concurrent requests than an actor's mailbox holds (16), combined with publish and delete (C07)."""
+    T, Sn, S2 = hx(tname("p", "t")), hx(sname("p", "s")), hx(sname("p", "s2"))
+    cases = []
+    for seed in seeds:
+        rng = random.Random(1000 + seed)
+        ops = ["SEED %d" % seed, "CT " + T, "CS %s %s 10 ~" % (Sn, T), "CS %s %s 10 ~" % (S2, T), "PUB %s 1 61 0" % T]
+        calls = []
+        n = 900
+        for _ in range(rng.randrange(17, 40)):
+            kind = rng.choice(["GS", "GS", "GS", "STATS", "PULL", "ACK", "LTS", "GT"])
+            if kind == "GS":
+                calls.append("GS " + Sn)
+            elif kind == "STATS":
+                calls.append("GS " + S2)
+            elif kind == "PULL":
+                calls.append("PULL %s 1 1" % Sn)
+            elif kind == "ACK":
+                calls.append("ACK %s 1 %s" % (Sn, hx("1")))
+            elif kind == "LTS":
+                calls.append("LTS %s 0 -" % T)
+            else:
+                calls.append("GT " + T)
+        special = ["DS " + Sn, "PUB %s 2 62 0 63 0" % T]
+        if rng.random() < 0.5:
+            special.append("PUB %s 1 64 0" % T)
+        if rng.random() < 0.4:
+            special.append("DS " + Sn)
+        if rng.random() < 0.3:
+            special.append("DT " + T)
+        for sp in special:
+            calls.insert(rng.randrange(0, len(calls) + 1), sp)
+        ids = []
+        for c in calls:
+            ops.append("BG %d %s" % (n, c))
+            ids.append(n)
+            n += 1
+            if rng.random() < 0.1:
+                ops.append("YIELD %d" % rng.randrange(1, 4))
+        ops.append("Q")
+        ops += ["JOIN %d" % i for i in ids]
+        ops += ["GS " + Sn, "GS " + S2, "GT " + T, "PUB %s 1 65 0" % T, "PULL %s 10 1" % S2, "LTS %s 0 -" % T]
+        cases.append(("%s%d" % (prefix, seed), ops))
+    return cases
